@@ -884,7 +884,10 @@ func ruleSettingsPresence(p *Prog, r *Out) {
 			}
 		}
 	}
-	type site struct{ fn, field, pos string; guarded bool }
+	type site struct {
+		fn, field, pos string
+		guarded        bool
+	}
 	var sites []site
 	scan := func(fnName string, recvExprs func(e ast.Expr) bool) {
 		fd := p.decl(fnName)
